@@ -1,6 +1,6 @@
 SPECIFICATION Spec
 CONSTANTS
-  Alphabet = {"a", "amp", "eq", "quot", "apos", "lt", "gt", "pct", "plus", "space", "nl", "semi", "hash", "qm", "eacute", "emoji", "entamp", "entlegacy", "entnum", "pctseq", "pctbad", "tplaction", "tplrelay", "tplmsg", "tplempty", "brace", "bslash", "bsesc", "bsgroup", "big"}
+  Alphabet = {"a", "amp", "eq", "quot", "apos", "lt", "gt", "pct", "plus", "space", "nl", "semi", "hash", "qm", "eacute", "emoji", "entamp", "entlegacy", "entnum", "pctseq", "pctbad", "tplaction", "tplrelay", "tplmsg", "tplempty", "brace", "bslash", "bsesc", "bsgroup", "big", "blankline", "linesep"}
   MaxLen = 1
   FixedSoap = FALSE
   FixedArtifact = FALSE
